@@ -54,8 +54,12 @@ def tree_digest(root, listing=False):
 
 
 class FS:
-    def __init__(self, root, crash_at=None, torn=None, snapshots=False):
+    def __init__(self, root, crash_at=None, torn=None, snapshots=False, buffered=False):
         self.root = os.path.realpath(str(root))
+        # buffered=False: every write() reaches the file at once (what large writes / unbuffered files do);
+        # buffered=True: data handed to write() stays in the process until flush()/close() (what Python's buffered
+        # writers do for small writes) - a process that dies loses it. Both extremes are explored.
+        self.buffered = buffered
         self.crash_at = crash_at
         self.torn = torn  # number of payload units (bytes / characters) of write op `crash_at` that still reach the file
         self.ops = []
@@ -206,6 +210,7 @@ class _WFile:
         self.name = name
         self.mode = mode
         self.closed = False
+        self._buf = []
         self.encoding = encoding if text else None
 
     def write(self, data):
@@ -216,6 +221,11 @@ class _WFile:
         n = len(data)
         if n == 0:
             return 0
+        if self._fs.buffered:
+            if self._fs.crashed:
+                raise Crash()
+            self._buf.append(data)
+            return n
         r = self._fs.op('write', self._rel, n)
         if r == 'torn':
             part = data[:self._fs.torn]
@@ -224,6 +234,19 @@ class _WFile:
         self._raw.write(data.encode(self._enc) if self._text else bytes(data))
         return n
 
+    def _drain(self):
+        """buffered mode: the buffered data reaches the file as ONE operation (flush / close / garbage collection)"""
+        if not self._buf:
+            return
+        data = ('' if self._text else b'').join(self._buf)
+        r = self._fs.op('write', self._rel, len(data))
+        self._buf = []
+        if r == 'torn':
+            part = data[:self._fs.torn]
+            self._raw.write(part.encode(self._enc) if self._text else bytes(part))
+            raise Crash()
+        self._raw.write(data.encode(self._enc) if self._text else bytes(data))
+
     def writelines(self, lines):
         for l in lines:
             self.write(l)
@@ -231,12 +254,17 @@ class _WFile:
     def flush(self):
         if self._fs.crashed:
             return
+        self._drain()
         self._raw.flush()
 
     def close(self):
         if not self.closed:
             self.closed = True
-            self._raw.close()
+            try:
+                if not self._fs.crashed:
+                    self._drain()
+            finally:
+                self._raw.close()
 
     def __enter__(self):
         return self
@@ -276,6 +304,13 @@ class _WFile:
         return self._raw.truncate(*a)
 
     def __del__(self):
+        # a file object that is dropped without close() (e.g. yaml.dump(info, path.open('w'))) is flushed when it is
+        # collected - with reference counting that is immediately, i.e. a deterministic point of the program
+        try:
+            if not self.closed and not self._fs.crashed:
+                self._drain()
+        except BaseException:  # noqa  (Crash included: the flag is set, later operations will see it)
+            pass
         try:
             self._raw.close()
         except Exception:  # noqa
